@@ -7,7 +7,7 @@ namespace NoKV.Queue
 
 /-- results that report "the operation did not happen" (the error classes, and the as-is panic) -/
 def Res.rejected : Res → Bool
-  | .emptykey | .hot | .toobig | .blocked | .closedErr | .panic => true
+  | .emptykey | .hot | .toobig | .blocked | .closedErr | .ioerr | .panic => true
   | _ => false
 
 set_option maxHeartbeats 1000000 in
